@@ -246,10 +246,20 @@ pub fn fault_history<X: FaultExec>(ctor: &str, ops: &[X::Op], rep: &mut Report, 
     fault_history_from::<X>(ctor, ops, rep, hist, only_inject, 0)
 }
 
+thread_local! {
+    /// restrict the enumeration to callbacks of one kind (set by the suite from `--only_kind`)
+    static ONLY_KIND: std::cell::Cell<Option<u8>> = std::cell::Cell::new(None);
+}
+pub fn set_only_kind(name: Option<&str>) {
+    let k = name.and_then(|n| cb::KIND_NAMES.iter().position(|x| *x == n)).map(|i| i as u8);
+    ONLY_KIND.with(|c| c.set(k));
+}
+
 /// as `fault_history`, but injection points are enumerated only for operations at index >=
 /// `from_op` (the earlier ones are just the path to the state of interest)
 pub fn fault_history_from<X: FaultExec>(ctor: &str, ops: &[X::Op], rep: &mut Report, hist: u64, only_inject: Option<(usize, u64)>, from_op: usize) {
     let base_live = cb::ledger_live();
+    let only_kind = ONLY_KIND.with(|c| c.get());
     let mut scratch = Report::new(); // quiet prefix runs must not inflate the evidence counters
     let mut cur: X = X::fresh(ctor);
     for i in 0..ops.len() {
@@ -272,10 +282,15 @@ pub fn fault_history_from<X: FaultExec>(ctor: &str, ops: &[X::Op], rep: &mut Rep
         };
         cb::reset_count();
         cb::disarm();
+        if only_kind.is_some() {
+            cb::log_enable(true);
+        }
         if let Err(f) = after.step_quiet(&op, &mut scratch) {
             rep.note(format!("fault: reference run failed: {} {}", f.sig, f.msg));
             return;
         }
+        let kinds: Vec<cb::CbKind> = if only_kind.is_some() { cb::log_kinds() } else { Vec::new() };
+        cb::log_enable(false);
         let n = if i < from_op && only_inject.is_none() { 0 } else { cb::count() };
         let book_after = after.book();
         let mut book_before = book_before;
@@ -285,6 +300,11 @@ pub fn fault_history_from<X: FaultExec>(ctor: &str, ops: &[X::Op], rep: &mut Rep
         for j in 0..n {
             if let Some((oi, oj)) = only_inject {
                 if oi != i || oj != j {
+                    continue;
+                }
+            }
+            if let Some(k) = only_kind {
+                if kinds.get(j as usize).map(|x| *x as u8) != Some(k) {
                     continue;
                 }
             }
@@ -524,6 +544,11 @@ pub fn run_lines(coll: &str, ctor: &str, lines: &[String], rep: &mut Report, his
 }
 
 pub fn suite_fault(cfg: &Cfg, rep: &mut Report) {
+    // --clonefault 1: cloning a caller-inserted value counts as a callback; --only_kind <name>:
+    // enumerate only that kind; --colls A,B: only these collections
+    cb::clone_hook(cfg.flag("clonefault"));
+    set_only_kind(cfg.get("only_kind"));
+    let colls: Option<Vec<String>> = cfg.get("colls").map(|s| s.split(',').map(|x| x.to_string()).collect());
     let mut h = cfg.shard;
     while h < cfg.budget {
         if let Some(o) = cfg.only {
@@ -533,6 +558,12 @@ pub fn suite_fault(cfg: &Cfg, rep: &mut Report) {
             }
         }
         let (coll, ctor, lines) = history_for(cfg, h);
+        if let Some(cs) = &colls {
+            if !cs.iter().any(|c| c == coll) {
+                h += cfg.nshards;
+                continue;
+            }
+        }
         if cfg.emit {
             println!("CTOR coll={} {}", coll, ctor);
             for l in &lines {
